@@ -705,3 +705,72 @@ def r01_4(ctx):
                                       and isinstance(sx[0].args[0], Obj) and sx[0].args[0].cls_name == "NotAcked"))
             ctx.require(good, f"nak,done={done}", f"NAK with {'completed' if done else 'open'} pending send: "
                         f"{[e.brief() for e in sx + ups]}", func=f, trace=p.trace())
+
+
+@rule("R04.5", ["C04", "C01"], "T-FUN", floor=1000, tier="thorough")
+def r04_5(ctx):
+    """(thorough) The induction made concrete: from every expected-number state 0..7, every sequence of up to three
+    frames over {DATA(frmNum 0..7, reTx 0/1), RSTACK} is pushed through frame_received on one receiver object and compared,
+    frame by frame, with a reference receiver written from the specification (deliveries, ACK/NAK kind and number,
+    expected number afterwards)."""
+    import itertools
+
+    repo = ctx.repo
+    f = repo.func(f"{ASH}:AshProtocol.frame_received")
+    cls = ash_cls(ctx)
+    ns = repo.cls(ASH, "NcpState").members()
+    alphabet = [("D", frm, re) for frm in range(8) for re in (0, 1)] + [("R", 0, 0)]
+    px = PX(repo, inline=inline_ash(stop=("_write_frame", "_cancel_pending_data_frames", "_change_ack_timeout")))
+    px.inline_root = f
+    n = 0
+    for rx0 in range(8):
+        for length in (1, 2, 3):
+            seqs = itertools.product(alphabet, repeat=length) if length < 3 else itertools.product(alphabet, alphabet[::3], alphabet[1::4])
+            for seq in seqs:
+                def entry():
+                    me = self_obj(cls, {"_rx_seq": rx0, "_tx_seq": 0, "_pending_data_frames": {}, "_ncp_state": ns["CONNECTED"]})
+                    for i, (kind, frm, re) in enumerate(seq):
+                        fr = (frame_obj(ctx, "DataFrame", frm_num=frm, re_tx=re, ack_num=0, ezsp_frame=Sym(f"payload{i}")) if kind == "D"
+                              else frame_obj(ctx, "RStackFrame", version=2, reset_code=Sym("code")))
+                        px.emit("mark", f"frame{i}")
+                        px.call_function(f, me, [fr], {}, None)
+                    return me.fields.get("_rx_seq")
+
+                paths = px._run(entry)
+                if len(paths) != 1:
+                    raise AnalysisError(f"frame sequence {seq}: {len(paths)} paths")
+                p = paths[0]
+                # reference receiver
+                rx, want = rx0, []
+                for i, (kind, frm, re) in enumerate(seq):
+                    if kind == "R":
+                        rx = 0
+                        want.append(("reset",))
+                    elif frm == rx:
+                        rx = (rx + 1) % 8
+                        want.append(("deliver", f"payload{i}", "AckFrame", rx))
+                    else:
+                        want.append(("drop", "AckFrame" if re else "NakFrame", rx))
+                got, cur = [], None
+                for e in p.events:
+                    if e.kind == "mark":
+                        cur = {"up": [], "wr": []}
+                        got.append(cur)
+                    elif upward(e):
+                        cur["up"].append((e.what.split(".")[-1], getattr(e.args[0], "tag", None)))
+                    elif e.kind == "call" and e.what.endswith("_write_frame"):
+                        cur["wr"].append((e.args[0].cls_name, e.args[0].fields.get("ack_num")))
+                ok = p.terminal == "return" and p.value == rx and len(got) == len(want)
+                for g, w in zip(got, want):
+                    if w[0] == "reset":
+                        ok = ok and g["up"] == [("reset_received", "code")] and not g["wr"]
+                    elif w[0] == "deliver":
+                        ok = ok and g["up"] == [("data_received", w[1])] and g["wr"] == [(w[2], w[3])]
+                    else:
+                        ok = ok and not g["up"] and len(g["wr"]) == 1 and g["wr"][0][1] == w[2] and (w[1] == "AckFrame") <= (g["wr"][0][0] == "AckFrame")
+                n += 1
+                if not ok:
+                    ctx.violation("sequence", f"from expected number {rx0}, frames {seq}: receiver does {got}, reference receiver expects {want} and ends at {rx}", func=f)
+                else:
+                    ctx.ok(1)
+    ctx.sample({"sequences": n})
